@@ -6,7 +6,7 @@
                        a new behaviour starts: fresh loggers, fresh custom severities, the
                        process-wide settings put back; the line carries what the getters report
      {"op":"Configure", l, f, jm, cm, named}       getters of the (new) logger of slot l afterwards
-     {"op":"Emit", l, sev, msg, args, caller, obs}  obs = projection of the bytes written (the
+     {"op":"Emit", l, sev, msg, args, caller, cfile, obs}  obs = projection of the bytes written (the
                        independent decoders of fam_encoder_dec.go / fam_encoder_color.go) plus
                        tagsrc / lvlsrc: which sources the printed level tag / name is equal to
      {"op":"GC", n}   {"op":"Register", c, g, ok}   {"op":"Switch", k, v, dbg, trc}
@@ -44,6 +44,7 @@ HFeats(rec) ==
     \cup {"msg:" \o rec.msg[j] : j \in {x \in DOMAIN rec.msg : rec.msg[x] # "plain"}}
     \cup {"attrs:" \o f : f \in TreeFeatures(rec.attrs)}
     \cup (IF rec.lc.set THEN {"colours:" \o rec.lc.fg \o "+" \o rec.lc.bg} ELSE {})
+    \cup (IF rec.caller /\ rec.cfile # "plain" THEN {"caller:" \o rec.cfile} ELSE {})
     \cup {"member-key:" \o x[1] \o ":" \o x[2] : x \in MemberReserved(rec.attrs, 0)}
 
 Blank == [testing |-> FALSE, dbg |-> FALSE, trc |-> FALSE, width |-> 3, minw |-> 36,
@@ -81,7 +82,7 @@ TNext ==
                THEN PrintT("@@note " \o ToJson([line |-> i, planned |-> CfgStep(ms, e.l, CfgForms[e.f]).mode[e.l],
                                                 reported |-> GetterMode(e.jm, e.cm), jm |-> e.jm, cm |-> e.cm]))
                ELSE TRUE
-       ELSE LET rec == ExpRecOf(ms, e.l, e.sev, e.msg, Own[e.l] \o e.args, e.caller) IN
+       ELSE LET rec == ExpRecOf(ms, e.l, e.sev, e.msg, Own[e.l] \o e.args, e.caller, e.cfile) IN
             /\ ms' = ms                               \* formatting a record changes nothing
             /\ IF ~InDomain(rec) THEN nskip' = nskip + 1 /\ nbad' = nbad
                ELSE LET d == HDiag(rec, ExpTagSrc(ms, e.sev), ExpNameSrc(ms, e.sev), e.obs) IN
